@@ -228,8 +228,18 @@ NotDrawn(f) ==
         Viol(~Drawn(f.pos), "C11", "draw-not-recognised-in-the-search",
              [fen |-> FenOf(f.pos), root |-> FenOf(rootpos), ply |-> f.ply, quiescence |-> f.q])
 
+\* The position the search stands on when it observes the stop is printed: the driver uses it to build the adversarial
+\* follow-up "tables that hold an entry for exactly that position, then the same stopped search again" (nothing that
+\* belongs to the abandoned line may leak into the answer).
+CastleMask(cs) == (IF 0 \in cs THEN 1 ELSE 0) + (IF 1 \in cs THEN 2 ELSE 0) + (IF 2 \in cs THEN 4 ELSE 0) + (IF 3 \in cs THEN 8 ELSE 0)
 Abort ==
     /\ IsStep("X")
+    /\ IF st # <<>>
+       THEN LET p == Top.pos
+            IN  PrintT("@@GEN " \o ToJson([kind |-> "dirty", b |-> p.board, stm |-> p.stm, cr |-> CastleMask(p.castle), ep |-> p.ep,
+                                           hmc |-> p.hmc, pl |-> p.plies, fen |-> FenOf(p), root |-> FenOf(rootpos),
+                                           ply |-> Top.ply, terminal |-> (Legal(p) = {}), at |-> l]))
+       ELSE TRUE
     /\ mode' = "aborted"
     /\ UNCHANGED <<st, path, rootpos, rootpv, rootlines>>
     /\ Bump("X")
